@@ -39,3 +39,123 @@ Print Assumptions C12_orthonormal_composition.
 Print Assumptions C12_exact_on_captured_range.
 Print Assumptions C12_projection_pythagoras.
 Print Assumptions C12_error_at_most_norm.
+
+(* ------------------------------------------------------------------------------------------------
+   pass_eff_qsvd, data flow regenerated from the source for n_passes = 2 .. 5 (qtrans/gen_c12.py).  qr_qua and the structured SVD of the
+   small factor are section variables; what is assumed about them is stated as hypotheses:
+     qr_ok     A = Q R for both outputs of qr_qua (C06),
+     the lifted small factorisation is exact on the small factor (true when rank(A) <= R; C05). *)
+From B Require Import Gen_C12.
+Section Pass.
+Variable C : CRing.
+Notation qmat := (qmat C).
+Variables (qrQ qrR svdL svdR : qmat -> qmat).
+Variables (m n k r : nat).
+Hypothesis qr_ok : forall p (M : qmat), meq p k M (qmm k (qrQ M) (qrR M)).
+
+(* lifting: (Qa L) S (Qb Rg)^H = Qa (L S Rg^H) Qb^H *)
+Lemma lift_product (Qa Qb L Rg S : qmat) :
+  meq m n (qmm r (qmm r (qmm k Qa L) S) (qherm (qmm k Qb Rg))) (qmm k (qmm k Qa (qmm r (qmm r L S) (qherm Rg))) (qherm Qb)).
+Proof.
+  rewrite (qherm_mm_meq C n k r Qb Rg).
+  rewrite (qmm_assoc C m k r r Qa L S).
+  rewrite (qmm_assoc C m k r n Qa (qmm r L S) (qmm k (qherm Rg) (qherm Qb))).
+  rewrite <- (qmm_assoc C k r k n (qmm r L S) (qherm Rg) (qherm Qb)).
+  rewrite <- (qmm_assoc C m k k n Qa (qmm r (qmm r L S) (qherm Rg)) (qherm Qb)). reflexivity.
+Qed.
+(* last pass odd: X Qb = Qa T was factored; if the lifted factorisation reproduces T, the result is X projected on range(Qb) from the right *)
+Lemma odd_last_exact (X Qb S : qmat) :
+  let T := qrR (qmm n X Qb) in
+  meq k k T (qmm r (qmm r (svdL T) S) (qherm (svdR T))) ->
+  meq m n (qmm r (qmm r (qmm k (qrQ (qmm n X Qb)) (svdL T)) S) (qherm (qmm k Qb (svdR T)))) (qmm k (qmm n X Qb) (qherm Qb)).
+Proof.
+  intros T HT. rewrite lift_product, <- HT. unfold T. now rewrite <- (qr_ok m (qmm n X Qb)).
+Qed.
+(* last pass even: X^H Qa = Qb T was factored; the result is Qa Qa^H X, the projection of X on range(Qa) *)
+Lemma even_last_exact (X Qa S : qmat) :
+  let T := qrR (qmm m (qherm X) Qa) in
+  meq k k (qherm T) (qmm r (qmm r (svdR T) S) (qherm (svdL T))) ->
+  meq m n (qmm r (qmm r (qmm k Qa (svdR T)) S) (qherm (qmm k (qrQ (qmm m (qherm X) Qa)) (svdL T)))) (qmm k Qa (qmm m (qherm Qa) X)).
+Proof.
+  intros T HT. rewrite lift_product, <- HT. unfold T.
+  rewrite (qmm_assoc C m k k n Qa (qherm (qrR (qmm m (qherm X) Qa))) (qherm (qrQ (qmm m (qherm X) Qa)))).
+  rewrite <- (qherm_mm_meq C n k k (qrQ (qmm m (qherm X) Qa)) (qrR (qmm m (qherm X) Qa))).
+  rewrite <- (qr_ok n (qmm m (qherm X) Qa)).
+  rewrite (qherm_mm_meq C n m k (qherm X) Qa), (qherm_herm C m n X). reflexivity.
+Qed.
+
+Variables (X G S : qmat).
+
+(* two passes: U S V^H = Q2 Q2^H X with Q2 the orthonormal basis of the first pass *)
+Theorem C12_pass2_is_projection : let T := gen_pass_small_2 C qrQ qrR m n k X G in
+  meq k k (qherm T) (qmm r (qmm r (svdR T) S) (qherm (svdL T))) ->
+  meq m n (qmm r (qmm r (gen_pass_U_2 C qrQ qrR svdR m n k X G) S) (qherm (gen_pass_V_2 C qrQ qrR svdL m n k X G)))
+          (let Q2 := qrQ (qmm n X G) in qmm k Q2 (qmm m (qherm Q2) X)).
+Proof. intros T HT. exact (even_last_exact X (qrQ (qmm n X G)) S HT). Qed.
+Theorem C12_pass3_is_projection : let T := gen_pass_small_3 C qrQ qrR m n k X G in
+  meq k k T (qmm r (qmm r (svdL T) S) (qherm (svdR T))) ->
+  meq m n (qmm r (qmm r (gen_pass_U_3 C qrQ qrR svdL m n k X G) S) (qherm (gen_pass_V_3 C qrQ qrR svdR m n k X G)))
+          (let Q1 := qrQ (qmm m (qherm X) (qrQ (qmm n X G))) in qmm k (qmm n X Q1) (qherm Q1)).
+Proof. intros T HT. exact (odd_last_exact X (qrQ (qmm m (qherm X) (qrQ (qmm n X G)))) S HT). Qed.
+Theorem C12_pass4_is_projection : let T := gen_pass_small_4 C qrQ qrR m n k X G in
+  meq k k (qherm T) (qmm r (qmm r (svdR T) S) (qherm (svdL T))) ->
+  meq m n (qmm r (qmm r (gen_pass_U_4 C qrQ qrR svdR m n k X G) S) (qherm (gen_pass_V_4 C qrQ qrR svdL m n k X G)))
+          (let Q2 := qrQ (qmm n X (qrQ (qmm m (qherm X) (qrQ (qmm n X G))))) in qmm k Q2 (qmm m (qherm Q2) X)).
+Proof. intros T HT. exact (even_last_exact X (qrQ (qmm n X (qrQ (qmm m (qherm X) (qrQ (qmm n X G)))))) S HT). Qed.
+Theorem C12_pass5_is_projection : let T := gen_pass_small_5 C qrQ qrR m n k X G in
+  meq k k T (qmm r (qmm r (svdL T) S) (qherm (svdR T))) ->
+  meq m n (qmm r (qmm r (gen_pass_U_5 C qrQ qrR svdL m n k X G) S) (qherm (gen_pass_V_5 C qrQ qrR svdR m n k X G)))
+          (let Q1 := qrQ (qmm m (qherm X) (qrQ (qmm n X (qrQ (qmm m (qherm X) (qrQ (qmm n X G))))))) in qmm k (qmm n X Q1) (qherm Q1)).
+Proof. intros T HT. exact (odd_last_exact X (qrQ (qmm m (qherm X) (qrQ (qmm n X (qrQ (qmm m (qherm X) (qrQ (qmm n X G)))))))) S HT). Qed.
+(* rand_qsvd (sketch no wider than the matrix), n_iter = 0 .. 3: the last factorisation is always X^H Q1 = Q2 RR, so U S V^H = Q1 Q1^H X *)
+Theorem C12_rand0_is_projection : let T := gen_rand_small_0 C qrQ qrR m n k X G in
+  meq k k (qherm T) (qmm r (qmm r (svdR T) S) (qherm (svdL T))) ->
+  exists Q1, meq m n (qmm r (qmm r (gen_rand_U_0 C qrQ qrR svdR m n k X G) S) (qherm (gen_rand_V_0 C qrQ qrR svdL m n k X G))) (qmm k Q1 (qmm m (qherm Q1) X))
+             /\ Q1 = qrQ (qmm n X G).
+Proof. intros T HT. eexists. split; [exact (even_last_exact X _ S HT) | reflexivity]. Qed.
+Theorem C12_rand1_is_projection : let T := gen_rand_small_1 C qrQ qrR m n k X G in
+  meq k k (qherm T) (qmm r (qmm r (svdR T) S) (qherm (svdL T))) ->
+  exists M, let Q1 := qrQ M in meq m n (qmm r (qmm r (gen_rand_U_1 C qrQ qrR svdR m n k X G) S) (qherm (gen_rand_V_1 C qrQ qrR svdL m n k X G))) (qmm k Q1 (qmm m (qherm Q1) X)).
+Proof. intros T HT. eexists. exact (even_last_exact X (qrQ _) S HT). Qed.
+Theorem C12_rand2_is_projection : let T := gen_rand_small_2 C qrQ qrR m n k X G in
+  meq k k (qherm T) (qmm r (qmm r (svdR T) S) (qherm (svdL T))) ->
+  exists M, let Q1 := qrQ M in meq m n (qmm r (qmm r (gen_rand_U_2 C qrQ qrR svdR m n k X G) S) (qherm (gen_rand_V_2 C qrQ qrR svdL m n k X G))) (qmm k Q1 (qmm m (qherm Q1) X)).
+Proof. intros T HT. eexists. exact (even_last_exact X (qrQ _) S HT). Qed.
+Theorem C12_rand3_is_projection : let T := gen_rand_small_3 C qrQ qrR m n k X G in
+  meq k k (qherm T) (qmm r (qmm r (svdR T) S) (qherm (svdL T))) ->
+  exists M, let Q1 := qrQ M in meq m n (qmm r (qmm r (gen_rand_U_3 C qrQ qrR svdR m n k X G) S) (qherm (gen_rand_V_3 C qrQ qrR svdL m n k X G))) (qmm k Q1 (qmm m (qherm Q1) X)).
+Proof. intros T HT. eexists. exact (even_last_exact X (qrQ _) S HT). Qed.
+
+(* orthonormal columns: every returned factor is (an orthonormal Q of qr_qua) times (an orthonormal singular-vector block) *)
+Hypothesis qrQ_orth : forall p (M : qmat), meq k k (qmm p (qherm (qrQ M)) (qrQ M)) qmid.
+Hypothesis svdL_orth : forall T : qmat, meq r r (qmm k (qherm (svdL T)) (svdL T)) qmid.
+Hypothesis svdR_orth : forall T : qmat, meq r r (qmm k (qherm (svdR T)) (svdR T)) qmid.
+Lemma lifted_orth p (M W : qmat) : meq r r (qmm k (qherm W) W) qmid -> meq r r (qmm p (qherm (qmm k (qrQ M) W)) (qmm k (qrQ M) W)) qmid.
+Proof. intros HW. apply (orthonormal_composition C p k r (qrQ M) W); [apply qrQ_orth | exact HW]. Qed.
+Theorem C12_pass_factors_orthonormal :
+  meq r r (qmm m (qherm (gen_pass_U_2 C qrQ qrR svdR m n k X G)) (gen_pass_U_2 C qrQ qrR svdR m n k X G)) qmid /\
+  meq r r (qmm n (qherm (gen_pass_V_2 C qrQ qrR svdL m n k X G)) (gen_pass_V_2 C qrQ qrR svdL m n k X G)) qmid /\
+  meq r r (qmm m (qherm (gen_pass_U_3 C qrQ qrR svdL m n k X G)) (gen_pass_U_3 C qrQ qrR svdL m n k X G)) qmid /\
+  meq r r (qmm n (qherm (gen_pass_V_3 C qrQ qrR svdR m n k X G)) (gen_pass_V_3 C qrQ qrR svdR m n k X G)) qmid /\
+  meq r r (qmm m (qherm (gen_pass_U_4 C qrQ qrR svdR m n k X G)) (gen_pass_U_4 C qrQ qrR svdR m n k X G)) qmid /\
+  meq r r (qmm n (qherm (gen_pass_V_4 C qrQ qrR svdL m n k X G)) (gen_pass_V_4 C qrQ qrR svdL m n k X G)) qmid /\
+  meq r r (qmm m (qherm (gen_pass_U_5 C qrQ qrR svdL m n k X G)) (gen_pass_U_5 C qrQ qrR svdL m n k X G)) qmid /\
+  meq r r (qmm n (qherm (gen_pass_V_5 C qrQ qrR svdR m n k X G)) (gen_pass_V_5 C qrQ qrR svdR m n k X G)) qmid.
+Proof. repeat split; apply lifted_orth; first [apply svdL_orth | apply svdR_orth]. Qed.
+Theorem C12_rand_factors_orthonormal :
+  meq r r (qmm m (qherm (gen_rand_U_0 C qrQ qrR svdR m n k X G)) (gen_rand_U_0 C qrQ qrR svdR m n k X G)) qmid /\
+  meq r r (qmm n (qherm (gen_rand_V_0 C qrQ qrR svdL m n k X G)) (gen_rand_V_0 C qrQ qrR svdL m n k X G)) qmid /\
+  meq r r (qmm m (qherm (gen_rand_U_1 C qrQ qrR svdR m n k X G)) (gen_rand_U_1 C qrQ qrR svdR m n k X G)) qmid /\
+  meq r r (qmm n (qherm (gen_rand_V_1 C qrQ qrR svdL m n k X G)) (gen_rand_V_1 C qrQ qrR svdL m n k X G)) qmid /\
+  meq r r (qmm m (qherm (gen_rand_U_2 C qrQ qrR svdR m n k X G)) (gen_rand_U_2 C qrQ qrR svdR m n k X G)) qmid /\
+  meq r r (qmm n (qherm (gen_rand_V_2 C qrQ qrR svdL m n k X G)) (gen_rand_V_2 C qrQ qrR svdL m n k X G)) qmid /\
+  meq r r (qmm m (qherm (gen_rand_U_3 C qrQ qrR svdR m n k X G)) (gen_rand_U_3 C qrQ qrR svdR m n k X G)) qmid /\
+  meq r r (qmm n (qherm (gen_rand_V_3 C qrQ qrR svdL m n k X G)) (gen_rand_V_3 C qrQ qrR svdL m n k X G)) qmid.
+Proof. repeat split; apply lifted_orth; first [apply svdL_orth | apply svdR_orth]. Qed.
+End Pass.
+Print Assumptions C12_pass2_is_projection.
+Print Assumptions C12_pass3_is_projection.
+Print Assumptions C12_pass5_is_projection.
+Print Assumptions C12_rand2_is_projection.
+Print Assumptions C12_pass_factors_orthonormal.
+Print Assumptions C12_rand_factors_orthonormal.
